@@ -3,6 +3,7 @@ import CatiiProofs.IIndexShift
 import CatiiProofs.IIndexWf
 import CatiiProofs.Counting
 import CatiiProofs.PickCommon
+import CatiiProofs.EqGenBridge
 /-!
 # C15 — library-chosen common value; equality is canonical
 
@@ -50,6 +51,21 @@ theorem eq_trans (a b c : IIndex) (ha : WF a) (hb : WF b) (hc : WF c)
   have hnr : a.nrows = b.nrows := by unfold IIndex.nrows; rw [hs1]
   rw [hd1 r hr hi hhi]
   exact hd2 r (by rw [← hnr]; exact hr) hi (by rw [← hs1]; exact hhi)
+
+/-! ### `==` and `!=` as REGENERATED from `iindex.__eq__` / `__ne__` on every run (`tools/translate_eq.py`)
+
+`EqGen.indexEq` is the current boolean expression of `__eq__` (shape, common, entry count, `setxor1d` of every entry
+with `other.get(coords, [])`), `EqGen.indexNe` the current `__ne__`; a class without `__ne__`, or one that is not the
+negation of `__eq__`, does not translate. -/
+
+/-- the comparison the source defines NOW is canonical: equal iff shape, common value and dense content coincide -/
+theorem generated_eq_iff_same_content (a b : IIndex) (ha : WF a) (hb : WF b) :
+    EqGen.indexEq a b = true ↔ a.shape = b.shape ∧ a.common = b.common ∧
+      ∀ r < a.nrows, ∀ hi ∈ hiCells (a.shape.drop 1), denseAt a r hi = denseAt b r hi := by
+  rw [gen_eq_is_eqIdx]; exact eq_iff_same_content a b ha hb
+
+/-- `!=` is the negation of `==` for every pair of indexes (well-formed or not): it returns a boolean, it never raises -/
+theorem generated_ne_is_negation (a b : IIndex) : EqGen.indexNe a b = !(EqGen.indexEq a b) := rfl
 
 /-- re-encoding with a different common value makes the index unequal, although the dense content
 is the same: the three components are each necessary -/
